@@ -50,20 +50,25 @@ def do_run(sid, checks):
     man = json.load(open(os.path.join(VERIF, 'MANIFEST.json')))
     if not checks:
         checks = [c['property_id'] for c in man['checks']]
-    rc, out = sh('git apply %s' % os.path.join(d, 'patch.diff'), cwd='/repo')
-    if rc:
-        print('patch does not apply:', out)
-        return
+    # the patch is applied in a scratch worktree of /repo (never in /repo itself); the checks read it through SPQA_REPO.
+    # evidence files are written to a scratch directory so that the committed evidence is not disturbed.
+    wt = '/tmp/seedrun-%s-%d' % (sid, os.getpid())
+    sh('git worktree add --detach %s HEAD' % wt, cwd='/repo')
     results = {}
     try:
+        rc, out = sh('git apply %s' % os.path.join(d, 'patch.diff'), cwd=wt)
+        if rc:
+            print('patch does not apply:', out)
+            return
         for c in checks:
             t = time.time()
-            rc, out = sh('./check %s --tier quick 2>&1' % c, cwd=VERIF)
+            rc, out = sh('SPQA_REPO=%s SPQA_EVIDENCE=%s/_ev ./check %s --tier quick 2>&1' % (wt, wt, c), cwd=VERIF)
             v = [l for l in out.splitlines() if 'refuted:' in l][:3]
             results[c] = {'exit': rc, 'wall': round(time.time() - t, 1), 'first': [x[:260] for x in v]}
             print(c, rc, v[0][:220] if v else '')
     finally:
-        sh('git checkout -- .', cwd='/repo')
+        sh('git worktree remove --force %s' % wt, cwd='/repo')
+        sh('git worktree prune', cwd='/repo')
     json.dump(results, open(os.path.join(d, 'detection.json'), 'w'), indent=1)
     print('caught by:', [c for c, r in results.items() if r['exit'] == 1], ' broken:', [c for c, r in results.items() if r['exit'] == 2])
 
